@@ -29,10 +29,9 @@ THEOREMS = [
     "C12_subset_order_irrelevant",
     "C12_mutually_exclusive_order_irrelevant",
     "C12_counts_order_irrelevant",
-    "C12_macro_impls_enumerations_are_permutations",
-    "C12_macro_impls_has_impl_order_irrelevant",
-    "C12_macro_impls_dedup_refuted",
-    "C12_macro_impls_dedup_order_irrelevant_small",
+    "C12_macro_impls_vec_determined_by_set",
+    "C12_macro_impls_dedup_deterministic",
+    "C12_macro_impls_hashset_regression_witness",
     "C12_macro_patch_replace_order_irrelevant",
     "C12_macro_crates_order_irrelevant",
     "C12_macro_crates_refuted",
@@ -349,24 +348,6 @@ def corpus_cases():
     return out
 
 
-def is_known_f1(settings):
-    """class macro-convert-same-type-impls-order: >= 2 macro `convert` entries with the same type name
-    and an impl set of >= 2 elements (default set {FromStr, Display} unless `?`-removed)."""
-    conv = settings.get("macro_convert") or []
-    by = {}
-    for c in conv:
-        impls = {"FromStr", "Display"}
-        for m in c.get("impls", []):
-            if m.startswith("?"):
-                impls.discard(m[1:])
-            else:
-                impls.add(m)
-        if len(impls) >= 2:
-            by.setdefault((c["type"], frozenset(impls)), 0)
-            by[(c["type"], frozenset(impls))] += 1
-    return any(v >= 2 for v in by.values())
-
-
 def run_proc(cases):
     return vlib.run_bin("c12", cases, args=("run",), timeout=3000)
 
@@ -465,7 +446,7 @@ def run(ctx):
         "dependencies' own hash use (serde_json, schemars, syn, quote, regress, heck ...) is outside the inventory; covered "
         "only by the multi-process byte comparison and the feature check (no preserve_order)",
         "macro front-end: `macro_*` settings of the c12 binary MIRROR typify-macro's HashSet/HashMap code (proc-macro crates "
-        "cannot be linked); the real macro was expanded in fresh rustc processes for finding C12-F1 (notes/C12.md)",
+        "cannot be linked); thorough tier expands the REAL macro in fresh rustc processes (control input + the witness of fixed finding C12-F1)",
     ]
     ctx.assumptions = [
         "reading: 'settings' = a TypeSpaceSettings value (builder) or the macro's token input; 'schema content' = the parsed "
@@ -496,6 +477,13 @@ def run(ctx):
             kinds[s["kind"]] = kinds.get(s["kind"], 0) + 1
         ctx.coverage["inventory_by_kind"] = kinds
         ctx.coverage["inventory"] = ["%s | %s | %s | %s" % (s["file"], s["fn"], s["kind"], s["cons"]) for s in sites]
+    if os.environ.get("C12_EMULATE") == "reintroduce-hashset" and rc == 0:
+        # emulated mutation: fix 9ffca46 reverted (HashSet back in into_name_and_impls)
+        f = '"typify-macro/src/token_utils.rs" "TypeAndImpls::into_name_and_impls" "HashSet"'
+        extra = "".join('\n  mk_site %s "%s";' % (f, c) for c in
+                        ("path:HashSet", "bind:impls", "call:impls.insert", "call:impls.remove", "call:impls.into_iter"))
+        txt = open(GEN_V).read().replace("Definition hash_sites : list site := [", "Definition hash_sites : list site := [" + extra)
+        open(GEN_V, "w").write(txt)
     if os.environ.get("C12_EMULATE") == "new-site" and rc == 0:
         # emulated mutation: a new HashMap iterated into the output
         txt = open(GEN_V).read().replace("Definition hash_sites : list site := [",
@@ -625,9 +613,6 @@ def run(ctx):
                 bad = ("second-type-space-in-same-process-differs", (mm, r), (mm, r))
                 break
         if bad:
-            if is_known_f1(s):
-                known_hits.setdefault("C12-F1", (name, bad[0]))
-                continue
             viol.append({"kind": bad[0], "document": name, "settings_name": sn, "settings": s,
                          "run_a": {"process": bad[1][0][1], "encoding": bad[1][0][2], "text": bad[1][0][3], "result": bad[1][1]},
                          "run_b": {"process": bad[2][0][1], "encoding": bad[2][0][2], "text": bad[2][0][3], "result": bad[2][1]}})
@@ -656,7 +641,7 @@ def run(ctx):
     })
     ctx.oblige("direct: crate-level items are emitted in sorted name order (OutputSpace)", not sorted_fail, json.dumps(sorted_fail[:2]))
 
-    # ---- known finding C12-F1 (macro convert impls order): must be a listed class
+    # ---- listed known findings (none at present: C12-F1 is fixed; a fixed entry suppresses nothing)
     listed = {f["id"]: f for f in ctx.findings_for()}
     for fid, (name, kind) in known_hits.items():
         if fid in listed:
@@ -752,11 +737,9 @@ def real_macro(ctx, viol, listed):
     ctx.evaluations += len(outs)
     ctx.coverage["real_macro_witness_distinct_outputs"] = len(set(outs))
     ctx.coverage["real_macro_witness_From_impl_counts"] = sorted({o.count("From<crate::my::X>") for o in outs})
+    # C12-F1 is FIXED (9ffca46, findings/C12.json "fixed"): not recognised as a class any more, so a
+    # regression (HashSet back in into_name_and_impls) is an ordinary violation
     if len(set(outs)) > 1:
-        if "C12-F1" in listed:
-            ctx.known_finding("C12-F1", "C12-F1: %s (REAL macro: %d distinct expansions in %d fresh rustc processes)"
-                              % (listed["C12-F1"]["summary"], len(set(outs)), len(outs)))
-        else:
-            viol.append({"kind": "real-macro-expansion-differs-across-processes", "macro_input": witness})
-    else:
-        ctx.log("C12-F1 witness did not reproduce on the real macro (fixed?)")
+        viol.append({"kind": "real-macro-expansion-differs-across-processes (regression of fix 9ffca46, C12-F1)",
+                     "macro_input": witness, "run_a": {"text": outs[0][-3000:]},
+                     "run_b": {"text": [o for o in outs if o != outs[0]][0][-3000:]}})
